@@ -190,6 +190,19 @@ class Toks:
                     return self.sig[k]
         return None
 
+    def enclosing(self, i):
+        """Index of the innermost bracket opened before token i and not yet closed (None at depth 0)."""
+        depth = 0
+        for k in range(self.pos[i] - 1, -1, -1):
+            x = self.t[self.sig[k]]
+            if x in (")", "]", "}"):
+                depth += 1
+            elif x in ("(", "[", "{"):
+                if depth == 0:
+                    return self.sig[k]
+                depth -= 1
+        return None
+
     def splice(self, i, j, text):
         """Source with tokens i..j (inclusive) replaced by text."""
         return "".join(self.t[:i]) + text + "".join(self.t[j + 1:])
@@ -280,7 +293,22 @@ def m_literal_swap(T, r):
     c = [(i, k) for i, k in c if k and not T.in_signature(i)]
     if not c:
         return None
-    i, k = c[r.randrange(len(c))]
+    # positions where the checker has to join or propagate types get more weight than plain operands
+    w = []
+    for i, k in c:
+        p, n = T.tok(i, -1), T.tok(T.match(i) if k == "List" else i, 1)
+        o = T.enclosing(i)
+        if o is not None and T.t[o] == "[" and p in ("[", ","):
+            w.append(8 if T.tok(o, -1) == "in" else 3)          # list element (of a `for` iterable)
+        elif (p == "{" and n == "}") or p in ("=>", "=", "return") or (p == "(" and T.tok(i, -2) == "Some"):
+            w.append(3)                                         # branch value, match arm, let/assign RHS, payload
+        else:
+            w.append(1)
+    x = r.random() * sum(w)
+    for (i, k), wi in zip(c, w):
+        x -= wi
+        if x < 0:
+            break
     j = T.match(i) if k == "List" else i
     if j is None:
         return None
@@ -330,11 +358,22 @@ def m_rename_other_var(T, r):
     names = T.var_names()
     if not u or len(names) < 2:
         return None
-    i = u[r.randrange(len(u))]
-    other = [n for n in names if n != T.t[i]]
-    top = [n for n in re.findall(r"^let (\w+) =", "".join(T.t), re.M) if n != T.t[i]]
-    if top and r.random() < 0.5:
-        other = top
+    src = "".join(T.t)
+    offs, k = {}, 0
+    for i, x in enumerate(T.t):
+        offs[i] = k
+        k += len(x)
+    top = re.findall(r"^let (\w+) =", src, re.M)
+    in_fun = [i for i in u if _in_function(src, offs[i])]
+    if top and in_fun and r.random() < 0.5:
+        # a use inside a function body renamed to a variable bound by a top-level `let`
+        i = in_fun[r.randrange(len(in_fun))]
+        other = [n for n in top if n != T.t[i]]
+    else:
+        i = u[r.randrange(len(u))]
+        other = [n for n in names if n != T.t[i]]
+    if not other:
+        return None
     return T.splice(i, i, other[r.randrange(len(other))])
 
 
@@ -477,16 +516,18 @@ MUTATIONS = [
 ]
 
 
+WEIGHTS = {"literal-swap": 3, "rename-other-var": 3}      # the other kinds weigh 1
+
+
 def mutants(rng, src, k=MUTANTS_PER_BASE):
     """Up to k distinct single-node mutants of src: [(kind, mutated source)]."""
     T = Toks(src)
-    order = list(range(len(MUTATIONS)))
-    rng.shuffle(order)
+    bag = [m for m in MUTATIONS for _ in range(WEIGHTS.get(m[0], 1))]
     out, seen = [], {src}
-    tries = 0
-    while len(out) < k and tries < 3 * len(order):
-        name, f = MUTATIONS[order[tries % len(order)]]
-        tries += 1
+    for _ in range(4 * k):
+        if len(out) >= k:
+            break
+        name, f = bag[rng.randrange(len(bag))]
         m = f(T, rng)
         if m is None or m in seen:
             continue
@@ -627,6 +668,54 @@ def _expr_candidates(src):
                 for n in range(len(elems)):
                     rest = [e for m, e in enumerate(elems) if m != n]
                     out.append(T.splice(i, j, "[" + ", ".join("".join(T.t[a:b + 1]) for a, b in rest) + "]"))
+        elif x == "if" and T.tok(i, -1) == "(":
+            # (if C { A } else { B }) -> A | B
+            o = T.nb(i, -1)
+            j = T.match(o)
+            k = T.pos[i]
+            while k < len(T.sig) and T.t[T.sig[k]] != "{":
+                k += 1
+            if j is None or k >= len(T.sig):
+                continue
+            b1 = T.sig[k]
+            e1 = T.match(b1)
+            if e1 is None or T.tok(e1, 1) != "else" or T.tok(e1, 2) != "{":
+                continue
+            b2 = T.nb(e1, 2)
+            e2 = T.match(b2)
+            if e2 is None:
+                continue
+            for a, b in ((b1, e1), (b2, e2)):
+                inner = "".join(T.t[a + 1:b]).strip()
+                if inner and "\n" not in inner:
+                    out.append(T.splice(o, j, inner))
+    lines = src.rstrip("\n").split("\n")
+    for n, l in enumerate(lines):
+        m = re.match(r"^(\s*let \w+ = )(.+)$", l)
+        if m and not l.rstrip().endswith("{"):
+            for lit in ("1", '"s"', "True", "[1]"):
+                if m.group(2) != lit:
+                    out.append("\n".join(lines[:n] + [m.group(1) + lit] + lines[n + 1:]) + "\n")
+        if not l.rstrip().endswith(("{", "}")) or l.count("{") == l.count("}"):
+            # a statement line that contains a call of a generated function -> just the call
+            for c in re.finditer(r"\bfn\d+\(", l):
+                if l[:c.start()].rstrip().endswith("fun"):
+                    continue
+                depth, e = 0, None
+                for q in range(c.end() - 1, len(l)):
+                    if l[q] == "(":
+                        depth += 1
+                    elif l[q] == ")":
+                        depth -= 1
+                        if depth == 0:
+                            e = q
+                            break
+                if e is not None and '"' not in l[c.start():e].replace('\\"', ""):
+                    ind = l[:len(l) - len(l.lstrip())]
+                    out.append("\n".join(lines[:n] + [ind + l[c.start():e + 1]] + lines[n + 1:]) + "\n")
+                elif e is not None:
+                    ind = l[:len(l) - len(l.lstrip())]
+                    out.append("\n".join(lines[:n] + [ind + l[c.start():e + 1]] + lines[n + 1:]) + "\n")
     return [c for c in out if c != src]
 
 
